@@ -1,6 +1,7 @@
 #ifndef SPACE_EXPLORER_THREADPOOL_H
 #define SPACE_EXPLORER_THREADPOOL_H
 
+#include <atomic>
 #include <condition_variable>
 #include <mutex>
 #include <type_traits>
@@ -46,7 +47,7 @@ private:
 private:
     int m_expiryTimeout;
     int m_maxThreadCount;
-    bool m_isRunning;
+    std::atomic<bool> m_isRunning;
 
 private:
     std::mutex m_poolMutex;
